@@ -81,12 +81,20 @@ class ClockPlugin(Plugin):
                 market.get_fundamental_price(s), market.get_executed_volume(s), market.get_executed_total_price(s),
                 market.get_n_buy_order(s), market.get_n_sell_order(s))
 
+    def _ival(self, market, s):
+        # what an index market *computes* for a time: a function of what its components recorded for it
+        return (market.compute_fundamental_index(s), market.compute_market_index(s), market.get_index(s),
+                market.get_market_index(s))
+
     def pre_tick(self, mon, market):
         # the last instant at which the current time is still "now": what is recorded for it is final
         t = market.get_time()
         if t >= 0:
             self.last_now = getattr(self, "last_now", {})
             self.last_now[market.market_id] = (t, self._val(market, t))
+            if isinstance(market, IndexMarket) and all(c.get_time() > t for c in market.get_components()):
+                self.ilast_now = getattr(self, "ilast_now", {})
+                self.ilast_now[market.market_id] = (t, self._ival(market, t))
 
     def post_tick(self, mon, market, mm, t):
         # the clock of this market just passed t-1: freeze what it recorded for t-1
@@ -103,6 +111,31 @@ class ClockPlugin(Plugin):
                         mon.viol("C06", "history_changed_by_clock_advance",
                                  {"market": market.name, "series": SERIES[ci], "time": t - 1, "was": a, "now_reads": b})
                         break
+        if t >= 1 and isinstance(market, IndexMarket):
+            iln = getattr(self, "ilast_now", {}).get(market.market_id)
+            ih = self.__dict__.setdefault("ihist", {}).setdefault(market.market_id, {})
+            try:
+                cur = self._ival(market, t - 1)
+            except Exception:
+                cur = None
+            if cur is not None:
+                if iln is not None and iln[0] == t - 1 and iln[1] != cur and not any(x != x for x in cur + iln[1]):
+                    names = ("compute_fundamental_index", "compute_market_index", "get_index", "get_market_index")
+                    ci = [i for i in range(4) if iln[1][i] != cur[i]][0]
+                    mon.viol("C06", "history_changed_by_clock_advance",
+                             {"market": market.name, "series": names[ci], "time": t - 1, "was": iln[1][ci], "now_reads": cur[ci]})
+                ih[t - 1] = cur
+                # an older time, re-read
+                for s_ in (0, (t - 1) // 2):
+                    if s_ in ih and s_ < t - 1:
+                        try:
+                            again = self._ival(market, s_)
+                        except Exception:
+                            continue
+                        if again != ih[s_] and not any(x != x for x in again + ih[s_]):
+                            mon.viol("C06", "history_changed", {"market": market.name, "series": "index computations", "time": s_,
+                                                               "was": list(ih[s_]), "now_reads": list(again), "clock": t})
+                mon.probe("index_history_checked")
         if mon.ext.get("storage_chunk_applied") and t > 0 and t % mon.ext["storage_chunk_applied"] == 0:
             mon.probe("storage_chunk_boundary_crossed")
         elif t > 0 and t % 100 == 0:
